@@ -106,8 +106,11 @@ class DragModel:
 def make_data_points(drag_table: DragTableDataType) -> List[DragDataPoint]:
     """Convert drag table from list of dictionaries to list of DragDataPoints"""
     try:
+        # always build fresh points: DragModelMultiBC rescales them in place, so reusing the caller's
+        # DragDataPoint instances would alter the input table and every model sharing it
         return [
-            point if isinstance(point, DragDataPoint) else DragDataPoint(point['Mach'], point['CD'])
+            DragDataPoint(point.Mach, point.CD) if isinstance(point, DragDataPoint)
+            else DragDataPoint(point['Mach'], point['CD'])
             for point in drag_table
         ]
     except (KeyError, TypeError) as exc:
